@@ -26,13 +26,15 @@ theorem reachable_managed_wellformed (u : Updater) (sc : Schema) (tr : TypeRef) 
     (h : Reachable u sc tr st) (hig : ∀ v f, u.ignore v = some f → FilterOK f) :
     st.managed.Pairwise (fun a b => a.1 < b.1) ∧
     (∀ x, x ∈ st.managed → x.2.set.wf = true) ∧
-    (∀ x, x ∈ st.managed → x.2.set.isEmpty = false) := sorry
+    (∀ x, x ∈ st.managed → x.2.set.isEmpty = false) :=
+  reachable_managedInv (fun v _ e => hig v _ e) h
 
 /-- with an exclusion set in force, no record of any reachable state contains an ignored path or
 anything beneath one -/
 theorem reachable_never_owns_ignored (u : Updater) (sc : Schema) (tr : TypeRef) (ex : SetTrie) (st : State)
     (hex : ex.wf = true) (hig : ExcludesEverywhere u ex) (h : Reachable u sc tr st) :
-    ∀ x, x ∈ st.managed → ∀ q, x.2.set.has q = true → ignoredBy ex q = false := sorry
+    ∀ x, x ∈ st.managed → ∀ q, x.2.set.has q = true → ignoredBy ex q = false :=
+  reachable_noIgnored hig hex h
 
 /-- non-vacuity: the empty state is reachable, and a first apply is a step -/
 example (u : Updater) (sc : Schema) (tr : TypeRef) : Reachable u sc tr ⟨.null, []⟩ := Reachable.init
